@@ -13,4 +13,4 @@ if __name__ == '__main__':
             out["groups"].append(run_group(g, d))
         except BaseException as e:
             out["groups"].append({"defs": {}, "outcomes": [], "crash": "%s: %s" % (type(e).__name__, e)})
-    json.dump(out, open(sys.argv[2], 'w'))
+    json.dump(out, open(sys.argv[2], 'w'), default=lambda o: {'object': type(o).__name__})
